@@ -11,7 +11,7 @@ SPEC = os.path.join(VERIF, "spec")
 WORK = os.path.join(VERIF, "work")
 EVID = os.path.join(VERIF, "evidence")
 HARNESS = os.path.join(VERIF, "harness")
-REPO = "/repo"
+REPO = os.environ.get("VERIF_REPO_DEV_ONLY", "/repo")     # (the override is used by bin/dev_seedfarm.py only)
 NCPU = os.cpu_count() or 4
 
 
